@@ -475,7 +475,7 @@ def _nv(nv, key, cond) -> None:
     nv[key] = nv.get(key, 0) + (1 if cond else 0)
 
 
-def run_family(run, name: str, consts: Dict[str, Any], workers=8, timeout=900) -> None:
+def run_family(run, name: str, consts: Dict[str, Any], workers=1, timeout=900) -> None:
     cfg = make_cfg(consts, INVS, PROPS, spec="SpecD")
     res = tlc_retry(run, "Gel", cfg, name=name, workers=workers, timeout_s=timeout, defs=split_defs(consts), coverage=False)
     run.model_must_hold(res)
